@@ -2,6 +2,7 @@ package constraint
 
 import (
 	"strconv"
+	"unicode/utf8"
 
 	schema "github.com/jsightapi/jsight-schema-core"
 	"github.com/jsightapi/jsight-schema-core/bytes"
@@ -39,7 +40,7 @@ func (c MaxLength) String() string {
 }
 
 func (c MaxLength) Validate(value bytes.Bytes) {
-	length := uint(value.Unquote().Len())
+	length := uint(utf8.RuneCount(value.Unquote().Data()))
 	if length > c.value {
 		panic(errs.ErrConstraintStringLengthValidation.F(
 			MaxLengthConstraintType.String(),
